@@ -262,6 +262,14 @@ def gen(rng, tier):
         F = list(rng.choice(small))
         pre, targets = hot_prefix(rng, F)
         out.append(fmap_case(rng, F, rng.choice([8, 16]), "fmT", prefix=pre, targets=targets))
+    # IndexMap / IndexSkipMap used directly
+    for _ in range({"quick": 25, "thorough": 150, "search": 40}[tier]):
+        n = rng.randint(1, 8)
+        items = [rng.randrange(50) for _ in range(n)]
+        ids = [rng.randrange(n) for _ in range(rng.randint(0, 8))]
+        skip = sorted(rng.sample(range(n), rng.randint(0, n)))
+        out.append("imap %s %s %s" % (L(items), L(ids), L(skip)))
+    out.append("imap 0 0 0")
     # the constructor rejects fewer than two factors
     out.append("trie 1 3 ops")
     out.append("trie 0 ops")
